@@ -413,15 +413,15 @@ func runDates(o *hx.Opts, res *hx.Result, r *hx.Rand) {
 				}
 				return class, fmt.Sprintf("re-read as %s: fields %v, expected %v", b.In(e.loc).Format(time.RFC3339Nano), fb, fa)
 			}
-			// same value at the rendered precision: the instant with the unrendered part removed
-			dropped := time.Duration(tl.Nanosecond())
+			// same value at the rendered precision: an instant inside the rendered minute (or second) that ends with t
+			unit := time.Second
 			if !e.seconds() {
-				dropped += time.Duration(tl.Second()) * time.Second
+				unit = time.Minute
 			}
-			if want := t.Add(-dropped); !b.Equal(want) {
+			if gap := t.Sub(b); gap < 0 || gap >= unit {
 				// same wall-clock fields, other instant: the local time occurs twice in the zone (the text has no offset)
 				return "envformat-datetime-roundtrip:repeated-hour-resolved-to-other-instant",
-					fmt.Sprintf("re-read as %s, the same local time but %s away from %s", b.In(e.loc).Format(time.RFC3339Nano), b.Sub(want), want.In(e.loc).Format(time.RFC3339Nano))
+					fmt.Sprintf("re-read as %s, the same local time but %s away from %s", b.In(e.loc).Format(time.RFC3339Nano), -gap, tl.Format(time.RFC3339Nano))
 			}
 			return "", ""
 		}
